@@ -9,7 +9,9 @@ RULE = ("real sockets, no scripted transport: Valve queries against an in-proces
         "timeouts {60, 150 ms}, retries 0..2; elapsed time must stay below (blocking steps that time out, as counted by the model on the "
         "same history) x timeout + slack, the error must be the receive class, the requests the server saw must equal the model's; "
         "byte-exact send/receive round trips for payload sizes 0..65507 over UDP and up to 100 000 over TCP, both families, with and "
-        "without truncation by the receive buffer; refused TCP connections. Non-trivial = every case.")
+        "without truncation by the receive buffer; refused TCP connections; a TCP peer that writes nothing / 1 / 40 / 1500 bytes and then "
+        "closes (everything written is delivered) or stalls with the connection open (the read fails within the read timeout, however "
+        "much of a reply had arrived). Non-trivial = every case.")
 ASSUMPTIONS = ["scheduling slack of 250 ms + 60 ms per timed-out step is allowed on top of the bound",
                "that SO_RCVTIMEO / connect_timeout are honoured by the OS is measured here, not proved"]
 TRUSTED = ["Lean theorem C12_valve_blocking_bound gives the number of blocking steps that can time out; the harness measures wall time"]
@@ -66,6 +68,15 @@ def run(rep, tier, seed, replay=None):
                 cid = f"x{k}"
                 cases.append(f"{cid} realrefused {fam} {ms}")
                 meta[cid] = ("refused", ms, 0, 0)
+            # a TCP peer that answers nothing / part of a reply / a whole reply and then closes, or stalls with the
+            # connection open: the read must end at the close or within the read timeout
+            for ms in ((80,) if tier == "quick" else (80, 200)):
+                for prefix in (".", "00", "0a" * 40, "ff" * 1500):
+                    for mode in ("c", "h"):
+                        k += 1
+                        cid = f"t{k}"
+                        cases.append(f"{cid} realtcp {fam} {ms} {mode} {prefix}")
+                        meta[cid] = ("tcp", ms, 0, 0)
     model = vlib.run_model(cases)
     impl, panics = vlib.run_impl(cases, tag="c12")
     for c in cases:
@@ -77,10 +88,11 @@ def run(rep, tier, seed, replay=None):
         mp, ip = m.split(" ;; "), i.split(" ;; ")
         if mp[0] != ip[0] or (len(mp) > 1 and len(ip) > 1 and mp[1] != ip[1]):
             rep.divergences.append((c, m, i, panics.get(cid, "")))
-            continue
+            # the wall-clock bound is still evaluated below: a step that outlives its timeout is a failing input
+            # whatever it finally returned
         if len(mp) > 2 and len(ip) > 2 and mp[2].startswith("B") and ip[2].startswith("T"):
             blocked, elapsed = int(mp[2][1:]), int(ip[2][1:])
-            ms = meta.get(cid, ("", int(c.split(" ")[3]) if c.split(" ")[1] == "realudp" else 0))[1]
+            ms = meta.get(cid, ("", int(c.split(" ")[3]) if c.split(" ")[1] in ("realudp", "realtcp") else 0))[1]
             bound = blocked * ms + SLACK_MS + PER_STEP_MS * blocked
             rep.count("timed-out-steps:" + str(blocked))
             if elapsed > bound:
